@@ -54,11 +54,11 @@ fn panic_violation(ctx: &mut Ctx, entry: &str, p: &s2n::Panicked, replay: vq_uti
 
 /// One (largest_acked, pn) pair with a list of candidate `largest_received` values.
 pub fn check_pair(ctx: &mut Ctx, la: u64, pn: u64, lrs: &[u64]) -> (usize, bool) {
-    let replay = json!({"check": "pn", "largest_acked": la, "pn": pn, "largest_received": lrs});
+    let replay = || json!({"check": "pn", "largest_acked": la, "pn": pn, "largest_received": lrs});
     let t = match s2n::pn_truncate(pn, la) {
         Ok(t) => t,
         Err(p) => {
-            panic_violation(ctx, "pn-truncate", &p, replay);
+            panic_violation(ctx, "pn-truncate", &p, replay());
             return (0, false);
         }
     };
@@ -77,7 +77,7 @@ pub fn check_pair(ctx: &mut Ctx, la: u64, pn: u64, lrs: &[u64]) -> (usize, bool)
                 PROPERTY,
                 "pn:truncate-declines-small-distance".into(),
                 format!("pn={pn} largest_acked={la}: truncate() returns None although {min} bytes suffice"),
-                replay,
+                replay(),
             );
         } else {
             ctx.sum.count("truncate_declined", 1);
@@ -93,7 +93,7 @@ pub fn check_pair(ctx: &mut Ctx, la: u64, pn: u64, lrs: &[u64]) -> (usize, bool)
                 "pn={pn} largest_acked={la}: s2n uses {} bytes, RFC 9000 17.1/A.2 requires at least {min}",
                 t.len
             ),
-            replay,
+            replay(),
         );
         return (t.len, false);
     }
@@ -108,7 +108,7 @@ pub fn check_pair(ctx: &mut Ctx, la: u64, pn: u64, lrs: &[u64]) -> (usize, bool)
                 t.value,
                 pn & mask
             ),
-            replay,
+            replay(),
         );
         return (t.len, false);
     }
@@ -122,12 +122,12 @@ pub fn check_pair(ctx: &mut Ctx, la: u64, pn: u64, lrs: &[u64]) -> (usize, bool)
                     PROPERTY,
                     "pn:wire-decode-failed".into(),
                     format!("decoding the {}-byte packet number failed", t.len),
-                    replay.clone(),
+                    replay(),
                 );
                 return (t.len, false);
             }
             Err(p) => {
-                panic_violation(ctx, "pn-expand", &p, replay);
+                panic_violation(ctx, "pn-expand", &p, replay());
                 return (t.len, false);
             }
         };
@@ -144,7 +144,7 @@ pub fn check_pair(ctx: &mut Ctx, la: u64, pn: u64, lrs: &[u64]) -> (usize, bool)
                     "pn={pn} sent as {} bytes against largest_acked={la}; receiver with largest_received={lr} reconstructs {got}",
                     t.len
                 ),
-                replay.clone(),
+                replay(),
             );
             return (t.len, false);
         }
@@ -156,7 +156,7 @@ pub fn check_pair(ctx: &mut Ctx, la: u64, pn: u64, lrs: &[u64]) -> (usize, bool)
                     "truncated {:#x} ({bits} bits), largest_received={lr}: s2n expands to {got}, RFC 9000 A.3 to {want}",
                     t.value
                 ),
-                replay.clone(),
+                replay(),
             );
             return (t.len, false);
         }
@@ -171,7 +171,7 @@ pub fn check_pair(ctx: &mut Ctx, la: u64, pn: u64, lrs: &[u64]) -> (usize, bool)
 
 pub fn one(ctx: &mut Ctx, seed: u64, index: u64) {
     let mut rng = Rng::new(mix(seed ^ 0x706e, index));
-    ctx.set_current(|| format!("pn seed={seed} index={index}"));
+    ctx.set_current("pn");
     ctx.sum.evaluations += 1;
     let max = w::VARINT_MAX;
     let (dist, edge) = if rng.chance(3, 5) {
